@@ -1,26 +1,25 @@
-(* C12 -- findings (not obligations of the check).
+(* C12 -- findings (not obligations of the check).  HISTORICAL: this file describes pdpy11 BEFORE
+   commit 0fa6448 ("a link base whose dependence on itself cancels is solved wherever its parts
+   are defined").  The finding no longer reproduces: the code now substitutes recursively
+   (Model/Poly.substitute; Props/C12.v: C12_substitute_sound, C12_substitute_complete and the
+   example C12_ex_substitute, which is the very input below), and ./check C12 expects every
+   solvable symbol-spelled link expression, anywhere, to be accepted.
 
-   The base Promise `LA` and the Deferred it is settled to (`d`) are two different LinearPolynomial
-   variables that always hold the same number.  LinearPolynomial._wait identifies them only by a
-   substitution that is ONE level deep: a variable's value is spliced in, but the variables inside
-   that value are not looked at again.  So whether `LA` cancels against `d` depends on how deep each
-   occurrence sits, i.e. on where in the file the `.link`, the labels and the intermediate symbols
-   are written.  Concrete input (rejected as recursive-definition, although x - s = 4 for every base,
-   and although `.link e - s` in the same place is accepted, and although moving `s: .word 1,2`
-   below the `.link` makes it accepted):
+   Before the fix, the base Promise `LA` and the Deferred it is settled to (`d`) were two different
+   LinearPolynomial variables holding the same number, and LinearPolynomial._wait identified them
+   only by a substitution that was ONE level deep (Model/Poly.wait_step).  Whether `LA` cancelled
+   against `d` depended on how deep each occurrence sat, i.e. on where the `.link`, the labels and
+   the intermediate symbols were written.  Input that was rejected as recursive-definition:
 
         x = e
         s: .word 1,2
         .link x - s
         e:
 
-   At the final evaluation the link expression is the polynomial  -LA + x  (s was registered as
-   LA+0 before the base was set), LA is settled to d, and the symbol x evaluates to  LA + 4.
-   After _wait's substitution the polynomial is  -d + LA + 4: not constant, so the base is asked
-   for while it is being computed.  The statement that would make symbols transparent --
-   "if the value is the same under every assignment consistent with what the variables are
-   settled to, the substituted polynomial is constant" -- is false of the model of _wait
-   (Model/Poly.wait_step, which is tied to the code by the operation-sequence correspondence). *)
+   The link expression was  -LA + x  with LA settled to d and x evaluating to  LA + 4; after the
+   one-level substitution:  -d + LA + 4, not constant.  The statement "if the value is the same
+   under every assignment consistent with what the variables are settled to, the substituted
+   polynomial is constant" is false of wait_step: *)
 From Coq Require Import List ZArith Lia Bool.
 From Verif Require Import Model.Poly Proofs.PolyP.
 Import ListNotations.
@@ -57,8 +56,7 @@ Proof.
 Qed.
 Print Assumptions C12_one_level_wait_complete_refuted.
 
-(* the same expression with both occurrences of the base at the same depth does cancel:
-   `.link e - s` is  (LA + 4) - LA *)
-Example direct_spelling_cancels :
-  is_const (wait_step oddity_sigma (sub (addc (pvar v_LA) 4) (pvar v_LA))) = true.
+(* the same input under the substitution of the current code *)
+Example oddity_now :
+  substitute (World [(v_LA, VVar v_d); (v_x, VPoly (addc (pvar v_LA) 4))] [v_d] []) oddity_poly = (Poly [] 4, []).
 Proof. vm_compute. reflexivity. Qed.
